@@ -8,6 +8,7 @@ from .. import refmodel as R
 from .. import shapes as S
 
 PROPERTY = "C02"
+VIA_HISTORY_EVERY = 13      # every k-th shape case is also run on an object that reached its definition through edits
 EXPLORERS = ['E1']
 RULE = ("E1: curves and surfaces x rational/non-rational x degrees x knot vectors (K(p,B,G) for curves, K'(p) Cartesian "
         "products for surfaces, unclamped, affine non-normalised images with normalize_kv on/off) x pairwise different "
@@ -119,6 +120,20 @@ def gen_cases(tier, seed):
                 base = [A.rep_kvs(pu, 1)[1], A.rep_kvs(pv, 1)[2]]
                 cases.append(dict(shape=A.shape_desc([A.affine_kv(base[0], a, s), A.affine_kv(base[1], 1.0, 2.0)], [pu, pv],
                                                      True, 3, 'coded', 'coded', normalize_kv=norm), affine=[a, s]))
+    # ---- read - mutate - read: queries first on the original knot vectors, then the interior knots are moved
+    # (x -> x*x keeps the vector clamped, sorted, of the same length and multiplicities) and everything is judged again
+    def moved(kv):
+        return [x * x for x in kv]
+    for p in (2, 3):
+        for kv in A.rep_kvs(p, 1)[1:]:
+            for rat in (False, True):
+                cases.append(dict(shape=A.shape_desc([kv], [p], rat, 3, 'coded', 'coded'), edit_kvs=[moved(kv)],
+                                  parts=['derivs', 'tangent']))
+    for pu, pv in ((2, 1), (2, 3)):
+        ku, kv = A.rep_kvs(pu, 1)[1], A.rep_kvs(pv, 1)[2]
+        for rat in (False, True):
+            cases.append(dict(shape=A.shape_desc([ku, kv], [pu, pv], rat, 3, 'coded', 'coded'), edit_kvs=[moved(ku), moved(kv)],
+                              parts=['derivs', 'tangent', 'normal']))
     return cases
 
 
@@ -180,8 +195,18 @@ def _setup(case, ctx):
     desc = case['shape']
     seed = ctx.seed
     obj = S.build(desc, seed)
-    model = R.def_from_obj(obj)
     pd = desc['pdim']
+    if case.get('edit_kvs'):
+        # read - mutate - read: every query is first made on the object with its ORIGINAL knot vectors (at the parameters
+        # that will be judged later), then the knot vectors are replaced through the public setters; everything below
+        # judges the edited object against the exact model of its new definition
+        _warm_up(obj, case, desc)
+        if pd == 1:
+            obj.knotvector = list(case['edit_kvs'][0])
+        else:
+            obj.knotvector_u = list(case['edit_kvs'][0])
+            obj.knotvector_v = list(case['edit_kvs'][1])
+    model = R.def_from_obj(obj)
     degs = list(model['degrees'])
     kvs_f = [list(obj.knotvector)] if pd == 1 else [list(k) for k in obj.knotvector]
     psets = case.get('params')
@@ -207,7 +232,7 @@ def _setup(case, ctx):
                  full_mult_knot=any(c0), full_mult_knot_u=c0[0], full_mult_knot_v=c0[-1] if pd > 1 else False,
                  net=desc['net'].split(':')[0], weights=desc.get('weights', 'ones'),
                  normalize_kv=desc.get('normalize_kv', True), unclamped=bool(case.get('unclamped')),
-                 affine=bool(case.get('affine')))
+                 affine=bool(case.get('affine')), after_edit=bool(case.get('edit_kvs')))
     ctx.state(dict(d=desc, s=seed if 'seeded' in (desc['net'], desc.get('weights')) else 0),
               nontrivial=A.is_nontrivial(desc))
 
@@ -217,6 +242,31 @@ def _setup(case, ctx):
             s *= (p / h) ** k
         return max(1.0, s * wr)
     return obj, model, psets, scale, feats
+
+
+def _warm_up(obj, case, desc):
+    from geomdl import operations
+    pd = desc['pdim']
+    sets = [A.params_for(p, kv, per_span=p + 1) for p, kv in zip(desc['degrees'], case['edit_kvs'])]
+    maxo = max(desc['degrees']) + 2
+    import itertools
+    for ev in (case.get('evaluators') or ['default']):
+        _install(obj, ev)
+        for prm in itertools.product(*sets):
+            for order in range(maxo + 1):
+                try:
+                    if pd == 1:
+                        obj.derivatives(prm[0], order)
+                    else:
+                        obj.derivatives(prm[0], prm[1], order)
+                except Exception:
+                    pass
+            try:
+                obj.evaluate_single(prm[0] if pd == 1 else list(prm))
+                operations.tangent(obj, prm[0] if pd == 1 else list(prm))
+            except Exception:
+                pass
+    _ = obj.evalpts, obj.bbox
 
 
 def _pfeats(feats, model, prm):
@@ -266,6 +316,11 @@ def _curve_case(case, ctx):
                     f = dict(pf[u], order=order, order_gt_degree=order > p, **fe)
                     rc = dict(case, params=[[u]], evaluators=[ev], orders=[order], parts=['derivs'])
                     try:
+                        if case.get('edit_kvs'):
+                            # the SAME query immediately before and after the edit (single-entry memoisation)
+                            obj.knotvector = list(desc['kvs'][0])
+                            obj.derivatives(u, order)
+                            obj.knotvector = list(case['edit_kvs'][0])
                         D = obj.derivatives(u, order)
                     except Exception as e:  # noqa - reported, not swallowed
                         ctx.check('C02.curve.derivs.no_exception', False, rc, f, 'a result', repr(e))
@@ -420,6 +475,11 @@ def _surface_case(case, ctx):
                              order_gt_degree=order > min(pu, pv), **fe)
                     rc = dict(case, params=[[prm[0]], [prm[1]]], evaluators=[ev], orders=[order], parts=['derivs'])
                     try:
+                        if case.get('edit_kvs'):
+                            # the SAME query immediately before and after the edit (single-entry memoisation)
+                            obj.knotvector_u, obj.knotvector_v = list(desc['kvs'][0]), list(desc['kvs'][1])
+                            obj.derivatives(prm[0], prm[1], order)
+                            obj.knotvector_u, obj.knotvector_v = list(case['edit_kvs'][0]), list(case['edit_kvs'][1])
                         D = obj.derivatives(prm[0], prm[1], order)
                     except Exception as e:  # noqa - reported, not swallowed
                         ctx.check('C02.surface.derivs.no_exception', False, rc, f, 'a result', repr(e))
